@@ -622,6 +622,32 @@ def specialise(expr, env):
     return T().visit(copy.deepcopy(expr))
 
 
+def gexpand(flow, expr, node, depth=None):
+    """def-use expansion with gated phis (a variable defined on both edges of a test becomes __gamma__(test, a, b))"""
+    old = getattr(flow, "gated", False)
+    flow.gated = True
+    try:
+        return flow.expand(expr, node) if depth is None else flow.expand(expr, node, depth=depth)
+    finally:
+        flow.gated = old
+
+
+def fold_compare(expr, decide):
+    """replace every comparison for which decide(lhs, op, rhs) (normalised to < / <= / == / !=, see cmp_norm) returns a bool by
+    that constant, then fold conditionals; decide returns None for comparisons it does not know"""
+    class T(ast.NodeTransformer):
+        def visit_Compare(self, n):
+            self.generic_visit(n)
+            c = cmp_norm(n, True)
+            if c:
+                v = decide(canon(c[0]), c[1], canon(c[2]))
+                if v is not None:
+                    return ast.Constant(value=bool(v))
+            return n
+    import copy
+    return specialise(T().visit(copy.deepcopy(expr)), {})
+
+
 def path_feasible(flow, node, env):
     """False if a fact on a branch edge dominating `node` is contradicted under env (after expansion and folding)"""
     for a, t in facts_at(flow, node):
